@@ -12,16 +12,18 @@ EXTENDS Naturals, Sequences, FiniteSets, TLC
 CONSTANTS MaxAssertions, MaxFaults
 
 RootOK == [version |-> "ok", dest |-> "ok", issuer |-> "ok", status |-> "ok"]
-AsOK   == [issuer |-> "ok", subject |-> "ok", conf |-> "ok", method |-> "ok", data |-> "ok", recipient |-> "ok", noa |-> "ok"]
+AsOK   == [issuer |-> "ok", subject |-> "ok", conf |-> "ok", method |-> "ok", data |-> "ok", recipient |-> "ok", noa |-> "ok", authn |-> "ok"]
+\* "near" is a near miss of the expected URL (query string, fragment, userinfo, host case, trailing slash);
+\* authn = "absent" (no AuthnStatement) is a legal variation, not a fault
 
 \* catalogue: <<where, field, value>>; where = 0 for the root, i for assertion i
 RootFaults == { <<0, "version", "absent">>, <<0, "version", "wrong">>,
-                <<0, "dest", "other">>, <<0, "dest", "absent">>, <<0, "dest", "empty">>,
+                <<0, "dest", "other">>, <<0, "dest", "near">>, <<0, "dest", "absent">>, <<0, "dest", "empty">>,
                 <<0, "issuer", "absent">>, <<0, "issuer", "other">>,
                 <<0, "status", "nostatus">>, <<0, "status", "nocode">>, <<0, "status", "fail">> }
 AsFaults(n) == { <<i, f[1], f[2]>> : i \in 1..n,
                  f \in { <<"issuer", "absent">>, <<"issuer", "other">>, <<"subject", "absent">>, <<"conf", "absent">>,
-                         <<"method", "other">>, <<"data", "absent">>, <<"recipient", "absent">>, <<"recipient", "other">>,
+                         <<"method", "other">>, <<"data", "absent">>, <<"recipient", "absent">>, <<"recipient", "other">>, <<"recipient", "near">>, <<"authn", "absent">>,
                          <<"noa", "absent">>, <<"noa", "malformed">>, <<"noa", "past">> } }
 
 Subsets(S, k) == {{}} \cup (IF k >= 1 THEN { {a} : a \in S } ELSE {})
@@ -49,7 +51,7 @@ NoErr == [cls |-> "none", type |-> "none", name |-> "none"]
 E(t, n) == [cls |-> "typed", type |-> t, name |-> n]
 
 RootCheck(cfg, r, n) ==
-   IF r.dest = "other" THEN E("ErrInvalidValue", "destination")
+   IF r.dest \in {"other", "near"} THEN E("ErrInvalidValue", "destination")
    ELSE IF r.version # "ok" THEN E("ErrInvalidValue", "samlversion")
    ELSE IF n = 0 THEN E("ErrMissingElement", "assertion")
    ELSE IF r.issuer = "absent" THEN E("ErrMissingElement", "issuer")
@@ -89,7 +91,7 @@ ModelOut(cfg, in) == LET e == ModelErr(cfg, in) IN [res |-> IF e.cls = "none" TH
 \* with the typed errors that name it
 V(t, names) == [type |-> t, names |-> names]
 RootViol(cfg, r, n) ==
-   (IF r.dest = "other" THEN {V("ErrInvalidValue", {"destination"})} ELSE {}) \cup
+   (IF r.dest \in {"other", "near"} THEN {V("ErrInvalidValue", {"destination"})} ELSE {}) \cup
    (IF r.version # "ok" THEN {V("ErrInvalidValue", {"samlversion", "version"})} ELSE {}) \cup
    (IF n = 0 THEN {V("ErrMissingElement", {"assertion"})} ELSE {}) \cup
    (IF r.issuer = "absent" THEN {V("ErrMissingElement", {"issuer"})} ELSE {}) \cup
@@ -105,7 +107,7 @@ AsViol(cfg, a) ==
     ELSE IF a.conf = "absent" THEN {V("ErrMissingElement", {"subjectconfirmation"})}
     ELSE (IF a.method = "other" THEN {V("ErrInvalidValue", {"subjectconfirmation", "method"})} ELSE {}) \cup
          (IF a.data = "absent" THEN {V("ErrMissingElement", {"subjectconfirmationdata"})}
-          ELSE (IF a.recipient = "other" THEN {V("ErrInvalidValue", {"recipient"})} ELSE {}) \cup
+          ELSE (IF a.recipient \in {"other", "near"} THEN {V("ErrInvalidValue", {"recipient"})} ELSE {}) \cup
                (IF a.recipient = "absent" THEN {V("ErrInvalidValue", {"recipient"}), V("ErrMissingElement", {"recipient", "subjectconfirmationdata"})} ELSE {}) \cup
                (IF a.noa = "absent" THEN {V("ErrMissingElement", {"notonorafter", "subjectconfirmationdata"})} ELSE {}) \cup
                (IF a.noa = "malformed" THEN {V("ErrParsing", {"notonorafter"})} ELSE {}) \cup
